@@ -17,9 +17,11 @@
      _open_fp                   the FAKEELT record of a catalog without name; lastbyte > space_size
      _link_eltorito             entries in order; an extent already in extent_to_inode is linked; else a
                                 HIDDEN boot file: _hidden_boot_file_length (3a98b0a), the room before
-                                the next known extent, the load_rba of any OTHER entry (063269b; [fx =
-                                false]: the code before that commit), the volume end (6f683a0, 60dc9c8:
-                                no UDF here), a new Inode, extent_to_inode[extent] = ino -> bp_link
+                                the next known extent, the load_rba of any OTHER entry (063269b), the
+                                volume end (6f683a0, 60dc9c8: no UDF here); without a valid boot info
+                                table the file takes ALL of that room (9223b0e); a new Inode,
+                                extent_to_inode[extent] = ino ([bp_code]: the code before / between /
+                                after these two commits)                             -> bp_link
      _hidden_boot_file_length   entry.length(); the boot info table (PVD extent, own extent,
                                 orig_len >= 64, fits, checksum)                     -> bp_hidden_len
      _check_for_eltorito_boot_info_table  for every entry's inode: EltoritoBootInfoTable.parse (PVD
@@ -213,39 +215,52 @@ Definition bp_min_above (x : Z) (l : list Z) (d : Z) : Z :=
 Definition bp_csum_ok (cover L : Z) : bool :=
   (Z.max cover 64 <=? Z.max L 64) && (L <=? ceiling_div cover C * C).
 
-Definition bp_hidden_len (w : wimage) (rba sc : Z) : Z :=
+(* (length, from_table) *)
+Definition bp_hidden_len (w : wimage) (rba sc : Z) : Z * bool :=
   let length := sc * 512 in                                        (* entry.length() *)
-  if negb (rba * C + 24 <=? w_size w) then length else             (* len(header) == 16 *)
+  if negb (rba * C + 24 <=? w_size w) then (length, false) else    (* len(header) == 16 *)
   match zassoc rba (w_tabs w) with
   | Some t =>
       let fits := rba * C + bt_len t <=? w_size w in
       if (bt_pvd t =? 16) && (bt_ext t =? rba) && (64 <=? bt_len t) && fits
          && bp_csum_ok (bt_cover t) (bt_len t)
-      then bt_len t else length
-  | None => length
+      then (bt_len t, true) else (length, false)
+  | None => (length, false)
   end.
+
+(* which _link_eltorito: Old = before commit 063269b, Mid = with 063269b (the other entries' extents
+   bound the room), Cur = the current code, with 9223b0e as well (no valid table: all the room) *)
+Inductive bp_code := Old | Mid | Cur.
+Definition bp_others (v : bp_code) : bool := match v with Old => false | _ => true end.
+Definition bp_extend (v : bp_code) : bool := match v with Cur => true | _ => false end.
+
+(* `if 0 < room < length: length = room  elif not from_table and room > length: length = room` *)
+Definition bp_fit (v : bp_code) (room : Z) (lf : Z * bool) : Z :=
+  let '(length, from_table) := lf in
+  if (0 <? room) && (room <? length) then room
+  else if bp_extend v && negb from_table && (length <? room) then room
+  else length.
 
 Record lstate2 := mk_lstate2 {
   l2_tbl : list (nat * (Z * Z)); l2_e2i : list (Z * nat); l2_inos : list nat }.
 
-(* [erbas]: get_rba() of every entry of entries_to_assign.  [fx = true]: the current code (commit 063269b,
-   `following.extend(other.get_rba() for other in entries_to_assign if other.get_rba() > entry_extent)`);
-   [fx = false]: the code before it *)
-Definition bp_link1 (fx : bool) (w : wimage) (space : Z) (erbas : list Z) (st : lstate2) (e : Z * Z * nat)
+(* [erbas]: get_rba() of every entry of entries_to_assign (063269b:
+   `following.extend(other.get_rba() for other in entries_to_assign if other.get_rba() > entry_extent)`) *)
+Definition bp_link1 (v : bp_code) (w : wimage) (space : Z) (erbas : list Z) (st : lstate2) (e : Z * Z * nat)
   : lstate2 :=
   let '(rba, sc, label) := e in
   match zassoc rba (l2_e2i st) with
   | Some j => mk_lstate2 (l2_tbl st) (l2_e2i st) (l2_inos st ++ [j])
   | None =>
-      let length := bp_hidden_len w rba sc in
-      let following := map fst (l2_e2i st) ++ (if fx then erbas else []) in
+      let lf := bp_hidden_len w rba sc in
+      let following := map fst (l2_e2i st) ++ (if bp_others v then erbas else []) in
       let room := (bp_min_above rba following space - rba) * C in
-      let length := if (0 <? room) && (room <? length) then room else length in
+      let length := bp_fit v room lf in
       mk_lstate2 (l2_tbl st ++ [(label, (rba, length))]) (l2_e2i st ++ [(rba, label)])
                  (l2_inos st ++ [label])
   end.
-Definition bp_link (fx : bool) (w : wimage) (space : Z) (es : list (Z * Z * nat)) (st : lstate2) : lstate2 :=
-  fold_left (bp_link1 fx w space (map (fun e : Z * Z * nat => fst (fst e)) es)) es st.
+Definition bp_link (v : bp_code) (w : wimage) (space : Z) (es : list (Z * Z * nat)) (st : lstate2) : lstate2 :=
+  fold_left (bp_link1 v w space (map (fun e : Z * Z * nat => fst (fst e)) es)) es st.
 
 (* ---- _check_for_eltorito_boot_info_table ------------------------------------------------------------ *)
 
@@ -274,7 +289,7 @@ Record reopen := mk_reopen {
 
 Definition bp_fake (nx : nat) : nat := (nx + nx)%nat.          (* the FAKEELT.;1 record *)
 
-Definition boot_parse_full_gen (fx : bool) (w : wimage) : presult reopen :=
+Definition boot_parse_full_gen (fx : bp_code) (w : wimage) : presult reopen :=
   let nx := w_next w in
   let recs := lvisit {| lroot := w_tree w; linodes := []; lnext := O; lptr_size := 0; lptr_ext := 0;
                         lspace := 0 |} in
@@ -324,16 +339,16 @@ Definition boot_parse_full_gen (fx : bool) (w : wimage) : presult reopen :=
   | ParseCore.PFuel => ParseCore.PFuel
   end.
 
-Definition boot_parse_full : wimage -> presult reopen := boot_parse_full_gen true.
+Definition boot_parse_full : wimage -> presult reopen := boot_parse_full_gen Cur.
 
-Definition boot_parse_gen (fx : bool) (w : wimage) : presult bstate :=
+Definition boot_parse_gen (fx : bp_code) (w : wimage) : presult bstate :=
   match boot_parse_full_gen fx w with
   | POk r => POk (ro_state r)
   | ParseCore.PInvalid x => PInvalid x
   | ParseCore.PUnsupported x => PUnsupported x
   | ParseCore.PFuel => ParseCore.PFuel
   end.
-Definition boot_parse : wimage -> presult bstate := boot_parse_gen true.
+Definition boot_parse : wimage -> presult bstate := boot_parse_gen Cur.
 
 (* ---- the reopened state, written down directly ------------------------------------------------------ *)
 
@@ -357,14 +372,14 @@ Definition cat_scs (c : et_catalog) : list Z := map e_sector_count (cat_entries 
 
 (* the length a boot file WITHOUT directory record comes back with; [known]: the inodes whose extents
    are in extent_to_inode at that moment, [ents]: the inodes of all entries *)
-Definition bp_newlen (fx : bool) (s : bstate) (ents known : list nat) (i : nat) (sc : Z) : Z :=
+Definition bp_newlen (fx : bp_code) (s : bstate) (ents known : list nat) (i : nat) (sc : Z) : Z :=
   let len := len_of i (linodes (bl s)) in
-  let len0 := if mem i (bbits s) && (64 <=? len) then len else sc * 512 in
-  let following := map (rba_of s) known ++ (if fx then map (rba_of s) ents else []) in
+  let lf := if mem i (bbits s) && (64 <=? len) then (len, true) else (sc * 512, false) in
+  let following := map (rba_of s) known ++ (if bp_others fx then map (rba_of s) ents else []) in
   let room := (bp_min_above (rba_of s i) following (lspace (bl s)) - rba_of s i) * C in
-  if (0 <? room) && (room <? len0) then room else len0.
+  bp_fit fx room lf.
 
-Fixpoint bp_hidden (fx : bool) (s : bstate) (ents : list nat) (es : list (nat * Z)) (known : list nat) : itable :=
+Fixpoint bp_hidden (fx : bp_code) (s : bstate) (ents : list nat) (es : list (nat * Z)) (known : list nat) : itable :=
   match es with
   | [] => []
   | (i, sc) :: r =>
@@ -375,7 +390,7 @@ Fixpoint bp_hidden (fx : bool) (s : bstate) (ents : list nat) (es : list (nat * 
 Definition bp_nonempty_ids (t : itable) : list nat :=
   map fst (filter (fun e => negb (snd e =? 0)) t).
 
-Definition reopened_gen (fx : bool) (s : bstate) : bstate :=
+Definition reopened_gen (fx : bp_code) (s : bstate) : bstate :=
   let l := bl s in
   let tbl := linodes l in
   let nx := lnext l in
@@ -395,11 +410,11 @@ Definition reopened_gen (fx : bool) (s : bstate) : bstate :=
          (dedup (filter (fun i => mem i (bbits s) && bp_csum_ok (len_of i tbl) (len_of i t)) (binos b)) [])
   end.
 
-Definition reopened : bstate -> bstate := reopened_gen true.
+Definition reopened : bstate -> bstate := reopened_gen Cur.
 
 (* where the data of the reopened object's inodes is in the image: the data of inode i of s was
    written at rba_of s i *)
-Definition reopened_src_gen (fx : bool) (s : bstate) : list (nat * (Z * Z)) :=
+Definition reopened_src_gen (fx : bp_code) (s : bstate) : list (nat * (Z * Z)) :=
   let l := bl s in
   let t1 := bp_named_tbl (lnext l) (linodes l) (lvisit l) [] in
   map (fun e => (fst e, ((if snd e =? 0 then 0 else rba_of s (fst e)), snd e))) t1
@@ -408,12 +423,12 @@ Definition reopened_src_gen (fx : bool) (s : bstate) : list (nat * (Z * Z)) :=
                      (bp_hidden fx s (binos b) (combine (binos b) (cat_scs (bcat b))) (bp_nonempty_ids t1))
      | None => []
      end.
-Definition reopened_src : bstate -> list (nat * (Z * Z)) := reopened_src_gen true.
+Definition reopened_src : bstate -> list (nat * (Z * Z)) := reopened_src_gen Cur.
 
 (* the boot info tables of the reopened object keep the orig_len / checksum that were written *)
-Definition reopened_olen_gen (fx : bool) (s : bstate) : list (nat * (Z * Z)) :=
+Definition reopened_olen_gen (fx : bp_code) (s : bstate) : list (nat * (Z * Z)) :=
   map (fun i => (i, own_len s i)) (bbits (reopened_gen fx s)).
-Definition reopened_olen : bstate -> list (nat * (Z * Z)) := reopened_olen_gen true.
+Definition reopened_olen : bstate -> list (nat * (Z * Z)) := reopened_olen_gen Cur.
 
 (* ---- harness (tools/boot_parse_cases.py) ------------------------------------------------------------ *)
 
